@@ -3,9 +3,9 @@ import os, json
 import vlib
 from corecheck import run_core
 def run(ctx):
-    res = run_core(ctx, "C06", sim_cfg="SIM_storage", mc_quick="MC_storage", mc_thorough="MC_storage_deep",
+    res = run_core(ctx, "C06", sim_cfgs=["SIM_storage", "SIM_late"], mc_quick="MC_storage", mc_thorough="MC_storage_deep",
                     harness_flags=[["--single-backend"], ["--single-backend", "--sqlite"]],
-                    need_stats=("Write:ok", "Load:ok", "load_equals_written_checks"),
+                    need_stats=("Write:ok", "Load:ok", "load_equals_written_checks", "stored_update_checks"),
                     invariants_note="ProvidersAgree (in-memory vs SQLite trimming rules), RetentionExact, Load = last written snapshot (MlsGroup.tla Write/Load); concrete: order-insensitive full-state equality (verif_state hook) between the group at write_to_storage and the group returned by load_group, after which the reloaded group continues the behaviour in lockstep with the model; stored epoch ids compared with the model after every step; every behaviour runs on the in-memory and on the SQLite provider; Write is one atomic action of the specification: for the SQLite provider that assumption is tested by killing (SIGKILL) a process that writes epoch after epoch at a random moment and checking that what is found in the file is a state a completed write left (loads, stored prior epochs = the last min(retention, epoch) epochs, the loaded group can continue)",
                     extra_rule="Each behaviour is replayed twice: in-memory providers and SQLite (file-backed) providers.")
     if not ctx.get("replay"):
